@@ -11,7 +11,7 @@
    type and value, and a type's on_pre_output_coercion hooks meet EVERY value at a position of that type, null
    results and null list items included. *)
 From Coq Require Import ZArith List String Bool.
-From TV Require Import Py.Prelude Model.Schema Model.Directives Model.DirectivesOut Proofs.DirectiveProofs Proofs.DirectiveOutProofs.
+From TV Require Import Py.Prelude Model.Schema Model.Directives Model.DirectivesOut Proofs.DirectiveProofs Proofs.DirectiveOutProofs Proofs.DirectiveAbstract.
 Import ListNotations.
 Open Scope string_scope.
 Open Scope list_scope.
@@ -88,6 +88,17 @@ Example C13_output_example :
    [("o", PRE_OUTPUT, 0%Z); ("t1", PRE_OUTPUT, 0%Z); ("t1", PRE_OUTPUT, 0%Z); ("t1", PRE_OUTPUT, 0%Z); ("o", PRE_OUTPUT, 0%Z)]).
 Proof. vm_compute. reflexivity. Qed.
 
+(* ABSTRACT output positions (interface / union): the abstract type's hooks, then the runtime object
+   type's hooks, then the object's fields -- exactly the object run over the concatenated instances;
+   each applicable instance of either type is invoked once for the value, the abstract type's first *)
+Theorem C13_abstract_position_is_object_run ads ods fields v log :
+  abstract_run ads ods fields v log = output_run (OObject (ads ++ ods) fields) v log.
+Proof. exact (abstract_run_is_object_run ads ods fields v log). Qed.
+
+Theorem C13_abstract_position_hooks_once_in_order ads ods fields v log :
+  exists rest, snd (abstract_run ads ods fields v log) = log ++ events ads PRE_OUTPUT ++ events ods PRE_OUTPUT ++ rest.
+Proof. exact (abstract_position_log ads ods fields v log). Qed.
+
 Print Assumptions C13_first_declared_outermost.
 Print Assumptions C13_query_wraps_schema.
 Print Assumptions C13_each_hook_once_in_order.
@@ -96,3 +107,5 @@ Print Assumptions C13_output_hooks_as_executed.
 Print Assumptions C13_list_items_each_once.
 Print Assumptions C13_list_items_invocation_count.
 Print Assumptions C13_null_meets_the_type_hooks.
+Print Assumptions C13_abstract_position_is_object_run.
+Print Assumptions C13_abstract_position_hooks_once_in_order.
